@@ -412,7 +412,7 @@ func runFcHistory(b *fw.B, cat fcCat, p fcParams, hNo int) {
 	blockOf := map[common.Root]struct {
 		parent common.Root
 		slot   common.Slot
-	}{}
+	}{anchorRoot: {anchorParent, anchorSlot}} // the anchor block too can only come again as itself (after it was pruned)
 	nOps := 5 + b.Rng.IntN(p.maxOps)
 	lastBlock := anchorRoot
 	forks, gapVotes, lateBlocks, updates := 0, 0, 0, 0
